@@ -373,6 +373,10 @@ class ApplyLayoutCastMemrefGlobal(RewritePattern):
         if not isinstance(global_op, memref.GlobalOp):
             return
 
+        # a subview of the global keeps describing the row-major order in its result type
+        if any(isinstance(use.operation, SubviewOp) for use in const_source.memref.uses):
+            return
+
         # the data of a global that already has a layout is not in row-major order anymore
         if not isinstance(const_source.memref.type.layout, builtin.NoneAttr):
             return
